@@ -15,7 +15,8 @@
 //        its OS thread stays in the token protocol but executes nothing any more; dumped as `V<v>[off]`, T<v>=D, T<n+v>=D)
 //   cmds (one vCPU acts at a time, all others are blocked on a semaphore OUTSIDE the scheduler):
 //     s<v>  the CURRENT thread of v runs its next op up to the next gate of v (idler: thread_yield())
-//     y<v>  same, but a thread_yield() parks inside the yield window (hook photon_verif_c05_yield_window)
+//     y<v>  same, but if the commanded block is a thread_yield() it parks inside the yield window (hook photon_verif_c05_yield_window);
+//           a thread_yield() of ANOTHER thread later in the same command (main thread inside wait_all's loop) does not park
 //     r<v>  idler of v: resume_threads()          w<v>  idler of v: try_work_stealing()
 //     a<v>  idler: resume_threads, try_work_stealing if alone, thread_yield (the library idler's round); else = s
 //     t<d>  the virtual clock advances by d
@@ -72,6 +73,7 @@ static thread** CURSLOT[MAXV];
 static uint8_t VFLAGS[MAXV];
 static sem_t sem_v[MAXV], sem_done;
 static bool holding[MAXV], arm_window[MAXV];
+static thread* arm_thread[MAXV];            // the thread whose `y` command armed the window: only ITS thread_yield() parks there
 static volatile bool vfini[MAXV];          // vcpu_fini() returned on this OS thread: VC[v], T[v].th, the idler are freed
 static Cmd cur_cmd;
 static uint64_t vclock = 1000;
@@ -135,7 +137,7 @@ static void wait_step() {
     for (;;) {
         Cmd c = gate();
         if (c.k == STEP || c.k == AUTO) return;
-        if (c.k == BLOCK) { arm_window[os_idx()] = true; return; }
+        if (c.k == BLOCK) { arm_thread[os_idx()] = get_current(); arm_window[os_idx()] = true; return; }
         // RESUME / SCAN for a vCPU whose CURRENT thread is not the idler: nothing happens (model: idler_running = false)
     }
 }
@@ -143,6 +145,11 @@ static void wait_step() {
 static void yield_window_cb() {
     int me = os_idx();
     if (!arm_window[me]) return;
+    // The hook runs after goto_next(): CURRENT is already the thread being switched TO, the yielding thread is its ring
+    // predecessor.  `y<v>` = "the commanded block, if it is a thread_yield(), parks in the window" (C05_E4.v CBlock): a
+    // thread_yield() executed LATER in the same command by another thread — the main thread inside wait_all()'s loop, which
+    // goes round without passing a gate — is not the commanded block and must not park.
+    { thread* c = get_current(); if (!c || c->prev() != arm_thread[me]) return; }
     for (;;) {
         Cmd c = gate();
         if (c.k == STEP || c.k == AUTO || c.k == BLOCK) return;
@@ -255,7 +262,7 @@ static void* my_idler(void*) {
             if (photon::AtomicRunQ(rq).single()) photon::try_work_stealing(vcpu);
             if (!photon::AtomicRunQ(rq).single()) photon::thread_yield();
             break;
-        case BLOCK: arm_window[os_idx()] = true;   /* fall through */
+        case BLOCK: arm_thread[os_idx()] = get_current(); arm_window[os_idx()] = true;   /* fall through */
         case STEP: if (!photon::AtomicRunQ(rq).single()) photon::thread_yield(); break;
         default: break;
         }
